@@ -59,6 +59,8 @@ def implSem (L : Lang) (to : Ty) (v : Val) : Res :=
     -- ECMA-334 10.2.3 implicit numeric conversions: widening, never from signed to unsigned
     if v.ty.intLike && to.intLike && v.ty.kind != .ptr && to.kind != .ptr
         && to.width > v.ty.width && (!v.ty.signed || to.signed) then .ok (wrapTo to v)
+    -- `nint`: implicit from sbyte, byte, short, ushort, int (C# 9 native-sized integers); the reverse is explicit only
+    else if to = .isize && (v.ty = .i32 || (v.ty.intLike && v.ty.width < 32 && v.ty.kind != .ptr)) then .ok (wrapTo to v)
     else .err ("c#: no implicit conversion " ++ v.ty.name ++ " -> " ++ to.name)
   | .d =>
     -- D: integer promotions / implicit conversions to a type at least as wide (same-width sign change allowed)
